@@ -116,11 +116,19 @@ func registerCompiledRoute(router *server.Router, route *ast.Route, bytecode []b
 	return router.RegisterRoute(serverRoute)
 }
 
+// maxCompiledRouteSteps bounds the number of VM instructions one request may
+// execute in compiled mode.
+const maxCompiledRouteSteps = 100_000_000
+
 // createCompiledRouteHandler creates an HTTP handler that executes compiled bytecode
 func createCompiledRouteHandler(route *ast.Route, bytecode []byte, wsHub *websocket.Hub) server.RouteHandler {
 	return func(ctx *server.Context) error {
 		// Create VM instance
 		vmInstance := vm.NewVM()
+		// A request must end: the VM runs without a step limit unless one is
+		// set, and a route whose loop never terminates would otherwise occupy
+		// the handler forever (the interpreter bounds its loops as well).
+		vmInstance.SetMaxSteps(maxCompiledRouteSteps)
 
 		// Set up WebSocket stats handler if hub is available
 		if wsHub != nil {
